@@ -124,21 +124,42 @@ func Load(root, dir, goos string, patterns ...string) (*Universe, error) {
 		callBusy:   map[*ssa.Call]bool{},
 		allocBusy:  map[*ssa.Alloc]bool{},
 	}
-	var errs []string
-	packages.Visit(initial, nil, func(p *packages.Package) {
-		if strings.HasPrefix(p.PkgPath, ModulePrefix) {
-			u.Pkgs[p.PkgPath] = p
-			for _, e := range p.Errors {
-				errs = append(errs, e.Error())
+	collect := func(initial []*packages.Package) (map[string]*packages.Package, *token.FileSet, []string) {
+		pk := map[string]*packages.Package{}
+		var fs *token.FileSet
+		var errs []string
+		packages.Visit(initial, nil, func(p *packages.Package) {
+			if strings.HasPrefix(p.PkgPath, ModulePrefix) {
+				pk[p.PkgPath] = p
+				for _, e := range p.Errors {
+					errs = append(errs, e.Error())
+				}
+				if p.Fset != nil {
+					fs = p.Fset
+				}
 			}
-			if p.Fset != nil {
-				u.Fset = p.Fset
+		})
+		sort.Strings(errs)
+		return pk, fs, errs
+	}
+	var errs []string
+	u.Pkgs, u.Fset, errs = collect(initial)
+	if len(errs) > 0 {
+		return nil, &LoadError{"type errors in the repository: " + strings.Join(errs, "; ")}
+	}
+	// rename normalisation (renames.go): reload through an overlay in which renamed symbols
+	// carry the names the rules know
+	if ov, rep, err := RenameOverlay(u.Pkgs); err == nil && len(ov) > 0 {
+		cfg2 := *cfg
+		cfg2.Overlay = ov
+		if again, err2 := packages.Load(&cfg2, patterns...); err2 == nil && len(again) > 0 {
+			if pk2, fs2, errs2 := collect(again); len(errs2) == 0 {
+				initial, u.Initial, u.Pkgs, u.Fset = again, again, pk2, fs2
+				u.Renamed = rep
+			} else {
+				u.Renamed = []string{"rename normalisation abandoned (the rewritten source does not type-check: " + errs2[0] + ")"}
 			}
 		}
-	})
-	if len(errs) > 0 {
-		sort.Strings(errs)
-		return nil, &LoadError{"type errors in the repository: " + strings.Join(errs, "; ")}
 	}
 	prog, _ := ssautil.AllPackages(initial, ssa.InstantiateGenerics)
 	prog.Build()
@@ -151,7 +172,8 @@ func Load(root, dir, goos string, patterns ...string) (*Universe, error) {
 		u.SSA[path] = sp
 	}
 	if KnownFuncs != nil {
-		u.Renamed = u.detectRenames(KnownFuncs)
+		u.Renamed = append(u.Renamed, u.detectRenames(KnownFuncs)...)
+		u.renameParams()
 		rep, err := u.InlineUnknownHelpers(func(key string) bool { return KnownFuncs[key] })
 		if err != nil {
 			return nil, &LoadError{"helper expansion failed: " + err.Error()}
@@ -265,6 +287,39 @@ func (u *Universe) detectRenames(known map[string]bool) []string {
 	return out
 }
 
+// renameParams gives the parameters of known functions and closures the names recorded
+// for them (by position): decoded conditions mention parameters by name.
+func (u *Universe) renameParams() {
+	if Known == nil {
+		return
+	}
+	for fn := range ssautil.AllFunctions(u.Prog) {
+		if !u.IsRepoFunc(fn) || len(fn.Params) == 0 {
+			continue
+		}
+		var names []string
+		if fn.Parent() == nil {
+			kp := Known.Pkgs[u.FuncPkgPath(fn)]
+			if kp == nil {
+				continue
+			}
+			if kf := kp.Funcs[u.RelName(fn)]; kf != nil {
+				names = kf.Params
+			}
+		} else if Known.Closures != nil {
+			names = Known.Closures[u.ClosureKey(fn)]
+		}
+		if len(names) != len(fn.Params) {
+			continue
+		}
+		for i, p := range fn.Params {
+			if names[i] != "" && names[i] != "_" && p.Name() != names[i] {
+				setHidden(p, "name", names[i])
+			}
+		}
+	}
+}
+
 // KnownSigs: signature key (sigKey) of every known top-level function.
 var KnownSigs = map[string]string{}
 
@@ -273,6 +328,22 @@ var KnownSigs = map[string]string{}
 // repository function are expanded in place before analysis (inline.go). nil
 // switches the expansion off.
 var KnownFuncs map[string]bool
+
+// ClosureParams lists the parameter names of every anonymous repository function.
+func (u *Universe) ClosureParams() map[string][]string {
+	out := map[string][]string{}
+	for _, fn := range u.repoFuncs {
+		if fn.Parent() == nil {
+			continue
+		}
+		var names []string
+		for _, p := range fn.Params {
+			names = append(names, p.Name())
+		}
+		out[u.ClosureKey(fn)] = names
+	}
+	return out
+}
 
 // FuncKeys lists the keys of all top-level repository functions (used to
 // regenerate known_funcs.txt).
